@@ -18,10 +18,10 @@ MANIFEST = {
             "its documentation: p?gssv, ?gstrs, ?gsrfs, sp_?trsv, sp_?gemv), and that the rejecting path allocates "
             "nothing and writes to no argument; the hand-written model is tied to the C code by an exhaustive "
             "single+pair violation enumeration executed on the real routines in 4 precisions on every run.",
-    "note": "The model is hand written; only the executed correspondence ties it to /repo. Scale-factor tests are modelled "
+    "note": "The argument tests of p?gssv, ?gstrs, ?gsrfs, ?gscon, ?gsequ, sp_?trsv, sp_?gemv (4 precisions) are RE-TRANSLATED from the current source on every run (tools/c2gal.py over the clang AST -> coq/ArgCheckGen.v) and proved equal to the hand-written model (ArgCheckTie.v, c15_source_is_model); p?gssvx (floating-point scans of R and C) is tied by the executed correspondence only. Scale-factor tests are modelled "
             "over exact rationals (NaN/Inf scale factors are out of scope). What happens after a call passes its tests "
             "is not modelled here (other properties).",
-    "technique": "Coq theorems about an executable Gallina model + exhaustive model-vs-C correspondence (extracted OCaml vs real library)",
+    "technique": "Coq theorems about an executable Gallina model, the model proved equal to a translation of the C source regenerated on every run, + exhaustive model-vs-C correspondence (extracted OCaml vs real library)",
     "design_ref": "DESIGN.md section 5 / C15",
 }
 
